@@ -87,7 +87,7 @@ func (c *Ctx) registrationFreeRender(a *FnA, ci ssa.CallInstruction) bool {
 	if sc == nil || cc.IsInvoke() || len(cc.Args) == 0 {
 		return false
 	}
-	if sc != c.method("Statement", "render") {
+	if sc != c.method("Statement", c.renderName()) {
 		return false
 	}
 	bc, ok := cc.Args[0].(*ssa.Call)
@@ -104,7 +104,7 @@ func (c *Ctx) registrationFreeRender(a *FnA, ci ssa.CallInstruction) bool {
 		}
 	}
 	// comment.render itself must not reach registration
-	for _, r := range c.codeImpls("render") {
+	for _, r := range c.codeImpls(c.renderName()) {
 		if r.Signature.Recv() != nil && types.TypeString(r.Signature.Recv().Type(), shortQual) == "jen.comment" {
 			if c.CG().Reach(r)[c.registerFn()] {
 				return false
@@ -122,8 +122,8 @@ type srcEvent struct {
 func ruleFileRenderOrder(c *Ctx) []Obligation {
 	o := c.newObs("P-FILERENDER-ORDER")
 	f := c.method("File", "Render")
-	ri := c.method("File", "renderImports")
-	grender := c.method("Group", "render")
+	ri := c.role("renderImports")
+	grender := c.method("Group", c.renderName())
 	if f == nil || ri == nil || grender == nil {
 		o.undecided("(*jen.File).Render", "anchor", token.NoPos, "anchor lost: File.Render / renderImports / Group.render")
 		return o.list
@@ -140,7 +140,7 @@ func ruleFileRenderOrder(c *Ctx) []Obligation {
 	if body == nil {
 		// through the promoted method wrapper
 		for _, ci := range a.calls() {
-			if sc := ci.Common().StaticCallee(); sc != nil && sc.Name() == "render" && g.Reach(sc)[grender] && len(ci.Common().Args) == 4 {
+			if sc := ci.Common().StaticCallee(); sc != nil && sc.Name() == c.renderName() && g.Reach(sc)[grender] && len(ci.Common().Args) == 4 {
 				body = ci
 			}
 		}
@@ -237,7 +237,7 @@ func ruleFileRenderOrder(c *Ctx) []Obligation {
 		}
 		cc := ci.Common()
 		// render of a comment statement into source
-		if sc := cc.StaticCallee(); sc != nil && !cc.IsInvoke() && sc == c.method("Statement", "render") && len(cc.Args) == 4 && stripConv(cc.Args[2]) == ssa.Value(src) {
+		if sc := cc.StaticCallee(); sc != nil && !cc.IsInvoke() && sc == c.method("Statement", c.renderName()) && len(cc.Args) == 4 && stripConv(cc.Args[2]) == ssa.Value(src) {
 			switch classifyComment(ci) {
 			case "recv.headers[·]":
 				evHeaderC = ci
@@ -335,7 +335,7 @@ func ruleFileRenderOrder(c *Ctx) []Obligation {
 
 func ruleImportBlock(c *Ctx) []Obligation {
 	o := c.newObs("P-IMPORTBLOCK")
-	f := c.method("File", "renderImports")
+	f := c.role("renderImports")
 	if f == nil {
 		o.undecided("(*jen.File).renderImports", "anchor", token.NoPos, "anchor lost")
 		return o.list
@@ -450,7 +450,7 @@ func ruleImportBlock(c *Ctx) []Obligation {
 	o.req(ok, fn, "separate `import \"C\"` only if a preamble exists", cImport.Call.Pos(), "way %s", bad)
 	// preamble comments: rendered from recv.cgoPreamble elements, each followed by exactly "\n", loop directly before the import
 	var pre ssa.CallInstruction
-	for _, ci := range a.callsTo(c.method("Statement", "render")) {
+	for _, ci := range a.callsTo(c.method("Statement", c.renderName())) {
 		if bc, ok := ci.Common().Args[0].(*ssa.Call); ok && len(bc.Call.Args) == 1 && collectionShape(a, bc.Call.Args[0]) == "recv.cgoPreamble[·]" {
 			pre = ci
 		}
